@@ -39,6 +39,12 @@ def _cov(S, rep, N, bs, prefix="g"):
         R = Gc.clone()
         S.put(R, Gs)
         return RootLinearOperator(R), Cs, Gs
+    if rep == "wide_root":
+        # a rectangular N x (N+1) root [G | 0]: same covariance G G^T, root with more columns than the event size
+        R = torch.cat([Gc, torch.zeros(*bs, N, 1)], dim=-1)
+        Rs = np.concatenate([Gs, np.full(bs + (N, 1), Sym.const(0.0), dtype=object)], axis=-1)
+        S.put(R, Rs)
+        return RootLinearOperator(R), Cs, Gs
     if rep == "added_diag":
         dvec = S.rand(*bs, N, lo=0.05, hi=0.3)
         Ds = S.sym_tensor(dvec, prefix + "d", positive=True)
@@ -85,7 +91,7 @@ def kl(S, N, pbs, qbs, rep):
     pm = S.randn(*pbs, N); Pm = S.sym_tensor(pm, "pm")
     qm = S.randn(*qbs, N); Qm = S.sym_tensor(qm, "qm")
     pc, PC, PG = _cov(S, rep, N, pbs, "gp")
-    qc, QC, QG = _cov(S, "dense" if rep == "root" else rep, N, qbs, "gq")
+    qc, QC, QG = _cov(S, "dense" if rep in ("root", "wide_root") else rep, N, qbs, "gq")
     with S.mode():
         p = MultivariateNormal(pm, pc)
         q = MultivariateNormal(qm, qc)
@@ -159,6 +165,10 @@ def moments_ops(S, N, bs, rep):
         mul_m, mul_c = mul.mean, mul.covariance_matrix
         mulf = d * -0.5
         mulf_m, mulf_c = mulf.mean, mulf.covariance_matrix
+        neg = d * -1
+        neg_m, neg_c = neg.mean, neg.covariance_matrix
+        negd = d / -1.0
+        negd_m, negd_c = negd.mean, negd.covariance_matrix
         dv = d / 4
         dv_m, dv_c = dv.mean, dv.covariance_matrix
         ex = d.expand(torch.Size((3,) + bs))
@@ -183,6 +193,8 @@ def moments_ops(S, N, bs, rep):
     S.prove_eq(sc_m, Ms + Sym.const(1.5), "(d+c).mean"); S.prove_eq(sc_c, Cs, "(d+c).cov")
     S.prove_eq(mul_m, Ms * Sym.const(3.0), "(d*3).mean"); S.prove_eq(mul_c, Cs * Sym.const(9.0), "(d*3).cov")
     S.prove_eq(mulf_m, Ms * Sym.const(-0.5), "(d*-0.5).mean"); S.prove_eq(mulf_c, Cs * Sym.const(0.25), "(d*-0.5).cov")
+    S.prove_eq(neg_m, Ms * Sym.const(-1.0), "(d*-1).mean"); S.prove_eq(neg_c, Cs, "(d*-1).cov")
+    S.prove_eq(negd_m, Ms * Sym.const(-1.0), "(d/-1).mean"); S.prove_eq(negd_c, Cs, "(d/-1).cov")
     S.prove_eq(dv_m, Ms * Sym.const(0.25), "(d/4).mean"); S.prove_eq(dv_c, Cs * Sym.const(0.0625), "(d/4).cov")
     S.prove_eq(ex_m, np.broadcast_to(Ms, (3,) + Ms.shape), "expand.mean")
     S.prove_eq(ex_c, np.broadcast_to(Cs, (3,) + Cs.shape), "expand.cov")
@@ -292,6 +304,7 @@ def scenarios(tier, seed):
             add("logprob", N=3 if i % 2 == 0 else 2, dbs=list(db), vbs=list(vb), rep=["dense", "lazy", "root", "added_diag"][i % 4], fast=bool(i % 2))
         add("kl", N=3, pbs=[], qbs=[], rep="lazy")
         add("kl", N=2, pbs=[2], qbs=[], rep="root")
+        add("kl", N=3, pbs=[], qbs=[], rep="wide_root")
         add("rsample", N=3, bs=[], rep="lazy", nsamp=0)
         add("rsample", N=2, bs=[], rep="root", nsamp=2)
         add("moments_ops", N=3, bs=[], rep="lazy")
@@ -311,6 +324,8 @@ def scenarios(tier, seed):
                 for fast in (True, False):
                     add("logprob", N=2 + (k % 2), dbs=list(db), vbs=list(vb), rep=["dense", "lazy", "root", "added_diag"][k % 4], fast=fast)
                     k += 1
+        add("kl", N=3, pbs=[], qbs=[], rep="wide_root")
+        add("kl", N=2, pbs=[2], qbs=[], rep="wide_root")
         for rep in ("dense", "lazy", "root", "added_diag"):
             add("kl", N=3, pbs=[], qbs=[], rep=rep)
             add("kl", N=2, pbs=[2], qbs=[1], rep=rep)
